@@ -43,6 +43,8 @@ type World struct {
 	value   *Value
 	deref   *Deref
 	posflow *PosFlow
+	printModels map[string]*PrintModel
+	vocab map[*ssa.Function]map[string]bool
 	siteCache []*siteInfo
 	recording, mayRecord map[*ssa.Function]bool
 	advancing map[*ssa.Function]bool
